@@ -8,6 +8,7 @@ import hashlib
 import hmac
 import base64
 import json
+import asyncio
 import os
 import re
 import urllib.parse
@@ -422,6 +423,94 @@ def gen_routes(ctx):
     ctx._routes_rows = rows
 
 
+def bad_token_suite(ctx, env):
+    """an AUTHORISED caller (administrator) whose CSRF token is wrong - tampered, issued for another service, or already
+    spent - is refused, and a request that is answered as a CSRF failure has changed nothing (the check comes before the
+    modification, not after it)"""
+    rng = ctx.rng
+    actor = Actor(env, 'admin')
+    rules = [r for r in env.app.url_map.iter_rules() if r.endpoint != 'static']
+    with env.app.app_context():
+        m = env.models
+        stream = m.Stream.get(directory='bbb')
+        mf = m.MediaFile.get(name='bbb_v7')
+        _keys = list(m.Key.all())
+        ids = {'spk': stream.pk, 'stream': 'bbb', 'mfid': mf.pk, 'filename': 'bbb_v7', 'kpk': _keys[0].pk if _keys else 1,
+               'mps_name': 'mps1', 'ppk': 1, 'segnum': 1, 'publish': 1700000000, 'username': 'user',
+               'upk': m.User.get(username='user').pk, 'self_pk': actor.user_pk}
+        mps = m.MultiPeriodStream.get(name='mps1')
+        ids['mps_pk'] = mps.pk if mps else None
+    n = 0
+    for rule in rules:
+        url = url_for_rule(rule, ids)
+        for method in ('POST', 'PUT', 'DELETE'):
+            if method not in (rule.methods or ()):
+                continue
+            view_class = getattr(env.app.view_functions.get(rule.endpoint), 'view_class', None)
+            if view_class is not None and asyncio.iscoroutinefunction(getattr(view_class, method.lower(), None)):
+                ctx.dist('bad-token:async-view-skipped')      # Flask's async support is not installed in this sandbox
+                continue
+            templates = [('none', None, False)] if method == 'DELETE' else payloads(rule.endpoint, ids, {})
+            for kind, body, _sp in templates:
+                actor.refresh_tokens()
+                toks = dict(actor.csrf)
+                toks.update(actor.harvest(url))
+                if not toks:
+                    continue
+                for variant in ('tampered', 'spent'):
+                    name = rng.choice(sorted(toks))
+                    tok = toks[name]
+                    if variant == 'tampered':
+                        raw = urllib.parse.unquote(tok)
+                        i = len(raw) // 2
+                        tok = urllib.parse.quote(raw[:i] + ('A' if raw[i] != 'A' else 'B') + raw[i + 1:])
+                    else:
+                        # spend it on a harmless check first
+                        from dashlive.server.requesthandler.csrf import CsrfProtection
+                        ck = actor.c.get_cookie('csrf')
+                        if ck is None:
+                            continue
+                        with env.app.test_request_context('/', headers={'Cookie': 'csrf=' + ck.value}):
+                            for sv in ('streams', 'files', 'keys', 'upload', 'login'):
+                                try:
+                                    CsrfProtection.check(sv, tok)
+                                except Exception:  # noqa
+                                    pass
+                    before = fingerprint(env)
+                    kw = {'headers': actor.headers(ajax=(kind != 'form'))}      # an HTML form is not posted by script
+                    target = url
+                    if isinstance(body, dict) and 'title' in body:
+                        body = dict(body, title='retitled %d' % n)      # a change that is visible every time
+                    if method == 'DELETE':
+                        target = url + '?csrf_token=' + tok
+                    elif kind == 'json':
+                        kw['json'] = dict(body, csrf_token=tok)
+                    else:
+                        kw['data'] = dict(body, csrf_token=tok)
+                    try:
+                        r = getattr(actor.c, method.lower())(target, **kw)
+                    except Exception as e:  # noqa
+                        ctx.dist('bad-token:client-error:%s' % type(e).__name__)
+                        continue
+                    n += 1
+                    ctx.count('http:bad-token')
+                    text = r.get_data(as_text=True)[:400].lower()
+                    refused = r.status_code in (400, 401, 403) and ('csrf' in text or 'signature' in text or 'not authorized' in text)
+                    after = fingerprint(env)
+                    changed = diff_tables(before, after)
+                    ctx.dist('bad-token:%s:%s' % (variant, 'refused' if refused else 'status-%d' % r.status_code))
+                    if r.status_code >= 500:
+                        ctx.violation('%s %s by an administrator with a %s CSRF token answers %d' % (method, url, variant, r.status_code),
+                                      {'url': url, 'method': method, 'role': 'admin', 'endpoint': rule.endpoint, 'variant': variant})
+                    if refused and changed:
+                        ctx.violation('%s %s by an administrator with a %s CSRF token is answered %d (a CSRF failure) but tables %r changed'
+                                      % (method, url, variant, r.status_code, changed),
+                                      {'url': url, 'method': method, 'role': 'admin', 'endpoint': rule.endpoint, 'variant': variant})
+                    elif refused:
+                        ctx.nontriv(('bad-token', method, rule.rule, variant))
+    ctx.oblige('http:bad-token-sweep', n > 0, '%d requests with a wrong token by an authorised caller' % n)
+
+
 def user_edit_suite(ctx, env):
     """POST /api/users/<pk> (EditUser.post decides inside its body who may change what): the row the database holds after
     each request against Model/UserModel.edit_user, for administrator / ordinary callers x own / other / unknown account
@@ -534,6 +623,9 @@ def run(ctx):
     env3 = build_env(ctx, 'users')
     user_edit_suite(ctx, env3)
     env3.close()
+    env4 = build_env(ctx, 'badtoken')
+    bad_token_suite(ctx, env4)
+    env4.close()
 
 
 def replay(ctx, payload):
